@@ -148,6 +148,9 @@ def _term_arg(rules, static=False):
     """library argument for terminal rules: None, a bare list (unconditional) or a dict regex -> groups"""
     if not rules:
         return None
+    if len(rules) == 1 and rules[0][0] is None and len(rules[0][1]) % 2 == 1:
+        # a single unconditional rule may be given as a bare list: of modifications (static) / of groups (variable)
+        return list(rules[0][1][0]) if static else [list(g) for g in rules[0][1]]
     d = {}
     for cond, groups in rules:
         key = '' if cond is None else t_regex(cond)
